@@ -1722,12 +1722,29 @@ def rule_r15(chk, prog):
                 if r:
                     return r
             return None
-        if isinstance(e, ast.BinOp) and isinstance(e.op, ast.Sub) and \
-                isinstance(e.left, ast.Call) and isinstance(
-                    e.right, ast.Call) and call_name(e.left) and \
-                call_name(e.left) == call_name(e.right):
-            return None
+        if isinstance(e, ast.BinOp) and isinstance(e.op, ast.Sub):
+            a, b = counter_of(e.left), counter_of(e.right)
+            if a and a == b:
+                return None
         return f'"{unparse(e)[:50]}"'
+
+    def counter_of(e, depth=0):
+        """name of the counting function whose result e is"""
+        if isinstance(e, ast.Call):
+            return call_name(e)
+        if isinstance(e, ast.Name) and depth < 3:
+            ds = [st.value for st in ast.walk(f) if isinstance(
+                st, ast.Assign) and any(isinstance(t, ast.Name)
+                                        and t.id == e.id
+                                        for t in st.targets)]
+            if any(isinstance(st, ast.AugAssign) and isinstance(
+                    st.target, ast.Name) and st.target.id == e.id
+                   for st in ast.walk(f)):
+                return None
+            cs = {counter_of(d, depth + 1) for d in ds}
+            if len(cs) == 1:
+                return cs.pop()
+        return None
 
     n = 0
     for c in ast.walk(f):
